@@ -532,7 +532,10 @@ class Config:
         Returns:
           boolean indicating whether the section exists
         """
-        return name in self.sections()
+        # Section names are case-insensitive (subsection names are not), as
+        # in every other accessor.
+        wanted = lower_key(name)
+        return any(lower_key(section) == wanted for section in self.sections())
 
 
 class ConfigDict(Config):
